@@ -79,7 +79,14 @@ class LineInitialMapper(initial_mapper.AbstractInitialMapper):
             self.device_graph = nx.Graph()
             self.device_graph.add_nodes_from(sorted(device_graph.nodes(data=True)))
             self.device_graph.add_edges_from(sorted(sorted(edge) for edge in device_graph.edges))
-        self.center = nx.center(self.device_graph)[0]
+        # One-way edges still connect their endpoints (the router treats a directed device graph
+        # as undirected), and nx.center needs finite distances.
+        self._undirected_graph = (
+            self.device_graph.to_undirected()
+            if nx.is_directed(self.device_graph)
+            else self.device_graph
+        )
+        self.center = nx.center(self._undirected_graph)[0]
 
     def _make_circuit_graph(
         self, circuit: cirq.AbstractCircuit
@@ -202,10 +209,14 @@ class LineInitialMapper(initial_mapper.AbstractInitialMapper):
         Raises:
             ValueError: if there are no available qubits left on the device.
         """
-        for _, successors in nx.bfs_successors(self.device_graph, source):
-            for successor in successors:
-                if successor not in mapped_physicals:
-                    return successor
+        graphs = [self.device_graph]
+        if self._undirected_graph is not self.device_graph:
+            graphs.append(self._undirected_graph)
+        for graph in graphs:
+            for _, successors in nx.bfs_successors(graph, source):
+                for successor in successors:
+                    if successor not in mapped_physicals:
+                        return successor
         raise ValueError("No available physical qubits left on the device.")
 
     def _value_equality_values_(self):
